@@ -64,6 +64,57 @@ Proof.
   split; [exact (pick_scheme_https_operation os) | exact (pick_scheme_ok rs os)].
 Qed.
 
+(* the chosen scheme is an offered one or the default *)
+Lemma select_scheme_in l : select_scheme l = [] \/ In (select_scheme l) l.
+Proof.
+  unfold select_scheme. destruct l as [|s0 r]; [now left|]. right.
+  destruct (negb (bytes_eqb s0 sch_https) && (1 <? length (s0 :: r))); [|now left].
+  destruct (existsb (bytes_eqb sch_https) (s0 :: r)) eqn:E; [|now left].
+  now apply existsb_https_in.
+Qed.
+
+Lemma existsb_eqb_in x l : In x l -> existsb (bytes_eqb x) l = true.
+Proof. intros H. apply existsb_exists. exists x. split; [exact H | apply bytes_eqb_refl]. Qed.
+
+Lemma pick_scheme_offered rs os : scheme_offered rs os (pick_scheme rs os) = true.
+Proof.
+  unfold scheme_offered, pick_scheme.
+  destruct (select_scheme_in rs) as [E1|H1].
+  - rewrite E1. destruct (select_scheme_in os) as [E2|H2].
+    + rewrite E2. rewrite bytes_eqb_refl. apply orb_true_r.
+    + destruct (select_scheme os) as [|c w] eqn:E2.
+      * rewrite bytes_eqb_refl. apply orb_true_r.
+      * rewrite (existsb_eqb_in (c :: w) (rs ++ os)); [reflexivity|].
+        apply in_or_app. now right.
+  - destruct (select_scheme rs) as [|c w] eqn:E1.
+    + destruct (select_scheme os) as [|c w] eqn:E2.
+      * rewrite bytes_eqb_refl. apply orb_true_r.
+      * destruct (select_scheme_in os) as [E3|H3]; [rewrite E2 in E3; discriminate|].
+        rewrite E2 in H3.
+        rewrite (existsb_eqb_in (c :: w) (rs ++ os)); [reflexivity|].
+        apply in_or_app. now right.
+    + rewrite (existsb_eqb_in (c :: w) (rs ++ os)); [reflexivity|].
+      apply in_or_app. now left.
+Qed.
+
+(* a history on one Runtime is the list of the single requests: no step sees an earlier one *)
+Lemma history_stateless base rs host steps n pattern ps caller os :
+  nth_error steps n = Some (pattern, ps, caller, os) ->
+  nth_error (create_history base rs host steps) n = Some (create_request base pattern ps caller rs os host).
+Proof.
+  intros H. unfold create_history.
+  rewrite (map_nth_error (create_step base rs host) n steps H). reflexivity.
+Qed.
+
+Lemma history_prefix_irrelevant base rs host pre pre' s :
+  nth_error (create_history base rs host (pre ++ [s])) (length pre) =
+  nth_error (create_history base rs host (pre' ++ [s])) (length pre').
+Proof.
+  unfold create_history. rewrite !map_app.
+  rewrite !nth_error_app2 by (rewrite map_length; apply le_n).
+  rewrite !map_length, !Nat.sub_diag. reflexivity.
+Qed.
+
 (* ---------- strings.ReplaceAll ---------- *)
 Lemma replace_go_skip t e u r : replace_go t e (length u) (u ++ r) = replace_go t e 0 r.
 Proof. induction u as [|c u IH]; [reflexivity|]. cbn [length app replace_go]. exact IH. Qed.
